@@ -1,5 +1,5 @@
 //@file src/append/rolling_file/mod.rs
-//@harness c05_append_protocol_twin unwind=6 strength=bounded bound="one append on an open writer: pre- or post-process policy, policy rolling or not, encoder writing 0..=3 bytes; parking_lot slow paths and std::fs replaced by models" timeout=1200 replay=no
+//@harness c05_append_protocol_twin unwind=6 strength=bounded bound="one append on an open writer: pre- or post-process policy, policy rolling or not, encoder writing 0..=3 bytes; parking_lot slow paths and std::fs replaced by models" timeout=2400 replay=no
 // Kani twin of the Verus unit c05_rolling_append, with call *counts*: the policy is consulted exactly once per append,
 // with the counter of the writer at that moment; before the record is written for a pre-process policy, after it was
 // written and flushed for a post-process policy; after a roll the record goes to the reopened writer.
